@@ -113,7 +113,17 @@ def structured_matrix(draw, n, p, exact=None, boundary_positions=(), max_shifts=
 @st.composite
 def any_matrix(draw, n, p):
     """Mixture of the families; returns X only."""
-    kind = draw(st.sampled_from(["structured", "exact", "generic", "plateau", "constant", "structured"]))
+    kind = draw(st.sampled_from(["structured", "exact", "generic", "plateau", "offset_scale", "constant", "structured"]))
+    if kind == "offset_scale":
+        # per-column level and spread: x = offset_j + scale_j * noise (signal well above / below its level,
+        # small and large units); variances stay far above the 1e-16 floor
+        X = draw(noise_matrix(n, p, False))
+        for j in range(p):
+            off = draw(st.sampled_from([0.0, 10.0, 300.0, -1000.0, 0.5]))
+            sc = draw(st.sampled_from([1.0, 1e-2, 1e-3, 1e2, 0.2]))
+            for i in range(n):
+                X[i][j] = off + sc * (X[i][j] + 0.25 * ((((i + 1) * 0.6180339887498949 + (j + 1) * 0.7548776662466927) % 1.0) - 0.5))
+        return X
     if kind == "plateau":
         # piecewise constant at values that are not exactly representable: prefix-sum variances of
         # the constant runs are rounding noise of either sign around 0 (sensor stuck at a reading)
